@@ -265,9 +265,118 @@ def run(chk: Check, eng: Engine) -> None:
             chk.bad("R11-c", eng.relfile(m), m.line, m.fq, f"{c.name}.__copy__ does not build a new object", "copy() on a memo hit returns the entry itself", keyparts=f"copy-identity|{c.name}")
 
 
+    chk.rule("R11-e", "lists the evaluator extends in place come from helpers that build them anew on every call", floor=2)
+    fresh_result_rule(chk, eng)
     chk.rule("R11-d", "what a memo hit deep-copies is copyable: the type closure of every deepcopy() argument in a Fitness.__copy__ stays clear of "
              "grammar / constraint objects (they hold the spec's globals - modules - and must be shared, not copied)", floor=3)
     copy_closure_rule(chk, eng, fitb)
+
+
+def fresh_result_rule(chk: Check, eng: Engine) -> None:
+    """R11-e.  The evaluator extends the lists it gets back from its own helper methods in place (`failing_trees.extend(...)`), and the
+    tuple that holds them goes into the evaluator's memo.  That is only sound while every helper builds the list anew on every call: a helper
+    that hands out a container kept elsewhere (an attribute, a module constant, a default) makes every tree's report accumulate the failing
+    parts of the trees evaluated before it."""
+    ev_mod = "fandango.evolution.evaluation"
+    n_sites = 0
+    for cname in ("Evaluator", "IoEvaluator"):
+        cls = eng.cls(ev_mod, cname)
+
+        def fresh_expr(m: FuncInfo, e: ast.AST, depth: int = 0) -> tuple[bool, str]:
+            if isinstance(e, (ast.List, ast.ListComp, ast.Dict, ast.Set)):
+                return True, "display"
+            if isinstance(e, ast.Call) and isinstance(e.func, ast.Name) and e.func.id in ("list", "sorted", "dict", "set"):
+                return True, e.func.id + "(...)"
+            if isinstance(e, ast.BinOp) and isinstance(e.op, ast.Add):
+                return True, "concatenation"
+            if isinstance(e, ast.Name):
+                if e.id in m.params():
+                    return False, f"parameter `{e.id}`"
+                defs = [a for a in walk_local(m.node) if isinstance(a, (ast.Assign, ast.AnnAssign)) and a.value is not None and
+                        any(isinstance(t, ast.Name) and t.id == e.id for t in (a.targets if isinstance(a, ast.Assign) else [a.target]))]
+                if not defs:
+                    return False, f"`{e.id}` has no local definition"
+                for d in defs:
+                    ok, why = fresh_expr(m, d.value, depth + 1)  # type: ignore[arg-type]
+                    if not ok:
+                        return False, why
+                stored = [a for a in walk_local(m.node) if isinstance(a, ast.Assign) and isinstance(a.value, ast.Name) and a.value.id == e.id and any(self_attr(t) for t in a.targets)]
+                if stored:
+                    return False, f"`{e.id}` is also kept in self.{self_attr(stored[0].targets[0])}"
+                return True, "local list"
+            return False, f"`{short(e, 40)}`"
+
+        def fresh_at(m: FuncInfo, idx: Optional[int], depth: int = 0) -> tuple[bool, str]:
+            """Is component idx of every value m returns (or the value itself, idx None) a container built during the call?"""
+            if depth > 3:
+                return False, "call chain too deep"
+            rets = [r for r in walk_local(m.node) if isinstance(r, ast.Return) and r.value is not None]
+            if not rets:
+                return False, "no return value"
+            for r in rets:
+                v = r.value
+                if isinstance(v, ast.Call) and isinstance(v.func, ast.Attribute) and self_attr(v.func) is not None:
+                    callee = cls.lookup(v.func.attr)
+                    if callee is None:
+                        return False, f"`{short(v, 40)}` is not a method of {cls.name}"
+                    ok, why = fresh_at(callee, idx, depth + 1)
+                    if not ok:
+                        return False, f"{callee.name}: {why}"
+                    continue
+                if idx is not None:
+                    if isinstance(v, ast.Tuple) and idx < len(v.elts):
+                        ok, why = fresh_expr(m, v.elts[idx])
+                        if not ok:
+                            return False, f"line {r.lineno}: component {idx} is {why}"
+                        continue
+                    return False, f"line {r.lineno}: returns `{short(v, 50)}`, not a tuple built in the call"
+                ok, why = fresh_expr(m, v)
+                if not ok:
+                    return False, f"line {r.lineno}: returns {why}"
+            return True, "fresh on every return"
+
+        for m in cls.methods.values():
+            for n in walk_local(m.node):
+                tgt = None
+                if isinstance(n, ast.Call) and isinstance(n.func, ast.Attribute) and n.func.attr in ("extend", "append", "insert", "remove", "clear", "sort") and isinstance(n.func.value, ast.Name):
+                    tgt = n.func.value.id
+                elif isinstance(n, ast.AugAssign) and isinstance(n.target, ast.Name):
+                    tgt = n.target.id
+                if tgt is None:
+                    continue
+                # definitions of tgt that come from a call of an own method
+                for d in walk_local(m.node):
+                    if not (isinstance(d, ast.Assign) and isinstance(d.value, ast.Call) and isinstance(d.value.func, ast.Attribute) and self_attr(d.value.func) is not None):
+                        continue
+                    callee = cls.lookup(d.value.func.attr)
+                    if callee is None:
+                        continue
+                    for t in d.targets:
+                        idx = None
+                        hit = False
+                        if isinstance(t, ast.Name) and t.id == tgt:
+                            hit = True
+                        elif isinstance(t, ast.Tuple):
+                            for i, el in enumerate(t.elts):
+                                if isinstance(el, ast.Name) and el.id == tgt:
+                                    hit, idx = True, i
+                        if not hit:
+                            continue
+                        if isinstance(n, ast.AugAssign) and idx is not None:
+                            # x += ... on a number rebinding: only containers matter
+                            ann = callee.node.returns  # type: ignore[attr-defined]
+                            if ann is not None and isinstance(ann, ast.Subscript) and isinstance(ann.slice, ast.Tuple) and idx < len(ann.slice.elts) and norm(ann.slice.elts[idx]) in ("float", "int", "bool"):
+                                continue
+                        n_sites += 1
+                        ok, why = fresh_at(callee, idx)
+                        if ok:
+                            chk.ok("R11-e", m.fq, n.lineno, f"`{short(n, 50)}` mutates component {idx} of `{short(d.value, 40)}`: {why}")
+                        else:
+                            chk.bad("R11-e", eng.relfile(m), n.lineno, m.fq, f"`{short(n, 50)}` mutates in place what `{short(d.value, 40)}` returned, and that is not built per call ({why})",
+                                    "the failing parts of every tree evaluated so far pile up in one shared list, which also sits in every memo entry: a tree's report depends on the run's history",
+                                    keyparts=f"shared-result|{callee.name}|{idx}")
+    if n_sites < 2:
+        raise AnalysisError(f"only {n_sites} in-place mutation(s) of helper results found in the evaluator")
 
 
 UNCOPYABLE_ATTRS = {"global_variables", "_global_variables"}
@@ -420,6 +529,7 @@ MUTANTS = [
     M("copy-returns-self", _FT, "    def __copy__(self) -> Fitness:\n        return ConstraintFitness(\n            solved=self.solved,\n            total=self.total,\n            success=self.success,\n            failing_trees=self.failing_trees[:],\n            suggestion=copy.deepcopy(self.suggestion),\n        )", "    def __copy__(self) -> Fitness:\n        return self", "R11-c"),
 ]
 MUTANTS += [
+    M("shared-trivial-result", _EV, "        if len(constraints) == 0:\n            return 1.0, [], NopSuggestion()\n", "        if len(constraints) == 0:\n            return self._trivially_satisfied\n", "R11-e"),
     M("suggestion-copy-descends-into-grammar", "src/fandango/constraints/repetition_bounds.py", "        memo[id(self._repetition_node)] = self._repetition_node\n", "", "R11-d"),
     M("fitness-copy-copies-failing-tree-causes", _FT, "            failing_trees=self.failing_trees[:],\n            suggestion=copy.deepcopy(self.suggestion),\n", "            failing_trees=copy.deepcopy(self.failing_trees),\n            suggestion=copy.deepcopy(self.suggestion),\n", "R11-d"),
 ]
